@@ -168,8 +168,10 @@ CLAIMED = {
                  'accounting invariant over the observation log and the frames of all suspended tasks): every successful '
                  'on_node_complete(n) is paid for by an on_node_start(n) of its own, and on_node_start is emitted exactly as often as '
                  'the storage counts invocations — with C04 / C11 at most once per node outside recurrent subgraphs '
-                 '(C14_one_success_per_start). The full ordering of the events of a whole run (pipeline events first / last) is '
-                 'tied, not a theorem.', '§6 C14'),
+                 '(C14_one_success_per_start); on_pipeline_start is the first observation of every execution and occurs at most once, '
+                 'on_pipeline_complete at most once for an event manager that does not raise in it '
+                 '(C14_pipeline_start_first_and_once, C14_pipeline_complete_at_most_once; with C13 nothing but task endings '
+                 'follows the return). The relative order of the events of different nodes is tied, not a theorem.', '§6 C14'),
     'C15': ('Lean 4 proof about the worklist builder model (closure of the traversal, per-mark contributions) + differential correspondence',
             'Proof: Builder.build — the model of build_dag with its real LIFO worklist and per-mark graph construction — visits exactly '
             'the declared nodes the output can reach (completeness and soundness of the worklist, any size/shape), contains for every '
